@@ -88,8 +88,15 @@ CONTEXTS = {
     "nonlocal-target": "v = None\ndef g():\n    nonlocal v\n    v = {C}\ng()\nreturn v",
     "return-in-loop": "for i in tr('it', [0, 1]):\n    if i:\n        return {C}\nreturn None",
     "global-name-shadow": "wrap2 = wrap\nreturn wrap2({C}, q={C})",
+    # a call that FOLLOWS a completed inner comprehension inside a region where temporaries are forbidden
+    "listcomp-iter-after-inner": "return [i for i in zip([q for q in tr('in', [0])], {C})]",
+    "listcomp-iter-around-inner": "return [i for i in ({C}, sum(q for q in tr('in', [0])), {C})]",
+    "second-for-after-inner": "return [b for a in [0] for b in (sum(q for q in [a]), {C})]",
+    "class-body-two-comprehensions": "class Z:\n    a = [q for q in tr('in', [0])]\n    b = [{C} for i in [0]]\nreturn Z.b",
+    "class-body-after-comprehension": "class Z:\n    a = [q for q in tr('in', [0])]\n    b = {C}\nreturn Z.b",
+    "iter-after-nested-class": "return [i for i in (tr('h', 0), *[type('Z', (), {{'a': [q for q in [0]]}}).a, {C}])]",
 }
-THOROUGH_ONLY = {"class-body"}
+THOROUGH_ONLY = set()
 
 # depth 2 (thorough): an expression context around the call, inside each statement context
 EXPR_WRAPS = {
@@ -480,7 +487,7 @@ def main(tier):
              "f-string, subscript / attribute base, walrus, try/finally, try/except around a failing call, generator, for, with, "
              "decorator, raise after the call, while / assert / augmented and annotated assignment, starred and ** displays, slice, comparison chain, "
              "match subject, yield from, except / else / with bodies, method of a nested class, doubly nested def, lambda in a comprehension, "
-             "nested comprehension, starred assignment, nonlocal target; thorough: class body, and depth 2 = each of 12 expression contexts around the call inside every statement context, for recurse / call_next on three kinds) x 11 call forms (positional, two, keyword, starred, "
+             "nested comprehension, starred assignment, nonlocal target, class body, a call following a completed inner comprehension inside a comprehension iterable / second for clause / class body; thorough: and depth 2 = each of 12 expression contexts around the call inside every statement context, for recurse / call_next on three kinds) x 11 call forms (positional, two, keyword, starred, "
              "double-starred, nested in the first / a later / a keyword argument / both) x 4 special names (recurse, call_next, the function's own name, a renamed import) x 6 "
              "function kinds (module-level, closure instantiated twice, positional defaults, keyword-only defaults, method with "
              "self, lambda / generator expression in the signature); each built twice from one source text; compared: acceptance, result, exception, order and multiplicity of "
